@@ -120,15 +120,18 @@ func (c *Cmd) End() Pos {
 			return Pos{}
 		}
 		return c.Expr.End()
-	case c.Expr == nil:
-		return c.Redirs[len(c.Redirs)-1].End()
 	default:
-		x := c.Expr.End()
-		r := c.Redirs[len(c.Redirs)-1].End()
-		if x.After(r) {
-			return x
+		// a here-document ends after the redirections which follow it
+		var end Pos
+		if c.Expr != nil {
+			end = c.Expr.End()
 		}
-		return r
+		for _, r := range c.Redirs {
+			if e := r.End(); e.After(end) {
+				end = e
+			}
+		}
+		return end
 	}
 }
 
